@@ -56,9 +56,6 @@ func (m *Machine) envIntrinsic2(name string, fn *ssa.Function, args []Value) (Va
 	case "(time.Time).Sub":
 		a, b := args[0].(*StructV).f[1].(*Term), args[1].(*StructV).f[1].(*Term)
 		return c.Arith(OMul, c.Arith(OSub, a, b), c.IntI(SI64, 1000000000)), true
-	case "(time.Time).Format":
-		m.stub(name)
-		return m.opaqueText("time", nil), true
 	case "(time.Duration).String":
 		m.stub(name)
 		return m.opaqueText("duration", nil), true
@@ -86,6 +83,11 @@ func (m *Machine) envIntrinsic2(name string, fn *ssa.Function, args []Value) (Va
 			if fo, isFile := p.loc.(*FileObj); isFile && fo.std == "" && !fo.open {
 				return TupleV{c.IntI(SI64, 0), m.newErr("write: file already closed", nil)}, true
 			}
+		}
+		if ro, isResp := w.v.(*RespObj); isResp {
+			txt := m.sprintf(format, va)
+			ro.body = append(ro.body, txt.b...)
+			return TupleV{c.IntI(SI64, int64(len(txt.b))), nilErr}, true
 		}
 		if w.t == nil {
 			m.goPanic("Fprintf to nil writer")
